@@ -23,9 +23,21 @@ def run_probe(fn):
                 j = json.loads(line)
                 if j.get("holds") is False:
                     return j
+        if p.returncode != 0:
+            return _aborted(fn, p)
+    except subprocess.TimeoutExpired:
+        return {"kind": "probe", "name": fn, "input": "the probe run of the real code did not finish within 600 s (it finishes in seconds on the unchanged tree): non-termination", "observed": "no result", "expected": "a result", "holds": False}
     except Exception:  # noqa
         return None
     return None
+
+
+def _aborted(fn, p):
+    """The real code brought the probe process down (stack overflow, abort, signal): that IS a failing run."""
+    return {"kind": "probe", "name": fn,
+            "input": "the probe process running the real code ended abnormally (exit status %s) before finishing its grid; last output: %s | stderr: %s"
+                     % (p.returncode, (p.stdout or "")[-200:].replace("\n", " "), (p.stderr or "")[-300:].replace("\n", " ")),
+            "observed": "process abort (e.g. unbounded recursion / stack overflow)", "expected": "a value or an error", "holds": False}
 
 
 def make_replay(pid, v, tier):
@@ -63,6 +75,11 @@ def make_replay(pid, v, tier):
                         rec["replay_on_real_code"] = j
                         found = True
                         break
+            if not found and p.returncode != 0:
+                j = _aborted(fn, p)
+                rec["failing_input"] = j["input"]
+                rec["replay_on_real_code"] = j
+                found = True
             if not found:
                 cases = 0
                 for line in p.stdout.split("\n"):
